@@ -14,6 +14,7 @@ package connect
 
 //@ func (Code).String(c) res
 //@   tags C18, C02, C05
+//@   assigns nothing
 //@   ensures res == codeText(c)                                   // label: text
 
 //@ func connectCodeToHTTP(code) res
@@ -460,7 +461,7 @@ package connect
 //@ func (*envelopeReader).Unmarshal(r, message) res
 //@   tags C01, C03, C04, C07, C08, C09
 //@   requires r != nil && r.reader != nil && !pooled(r.reader) && termerr(r.reader) != errSpecialEnvelope && r.bufferPool != nil && r.codec != nil
-//@   assigns rest(r.reader), mval(message), r.last.Data, r.last.Flags
+//@   assigns rest(r.reader), mval(message), prototarget(message), r.last.Data, r.last.Flags
 //@   ensures let S := old(rest(r.reader)) in completeFrame(r, S) && (S[0] == 0 || S[0] == 1) && plainOK(r, S) ==> (res == nil <==> mdecOK(r.codec, plain(r, S))) && rest(r.reader) == S[5+declared(S):]    // label: message-accepted-iff-codec-accepts
 //@   ensures let S := old(rest(r.reader)) in completeFrame(r, S) && (S[0] == 0 || S[0] == 1) && plainOK(r, S) && res == nil ==> mval(message) == mdec(r.codec, plain(r, S))   // label: target-is-exactly-the-decoded-payload   // tags: C01
 //@   ensures let S := old(rest(r.reader)) in res == nil ==> completeFrame(r, S) && (S[0] == 0 || S[0] == 1) && plainOK(r, S) && mdecOK(r.codec, plain(r, S))   // label: success-only-for-a-complete-decodable-message-within-limits   // tags: C04, C07, C09
@@ -513,7 +514,7 @@ package connect
 
 //@ func (*protoBinaryCodec).Unmarshal(c, data, message) res
 //@   tags C01
-//@   assigns mval(message)
+//@   assigns mval(message), prototarget(message)
 //@   ensures res == nil ==> mval(message) == pbdec(seq(data))        // label: target-is-exactly-the-decoded-payload
 //@   ensures res != nil ==> !Is(res, io.EOF)                          // label: decoding-errors-are-not-eof
 
@@ -523,12 +524,13 @@ package connect
 
 //@ func (*protoJSONCodec).Unmarshal(c, binary, message) res
 //@   tags C01
-//@   assigns mval(message)
+//@   assigns mval(message), prototarget(message)
 //@   ensures res == nil ==> mval(message) == jsondec(seq(binary))     // label: target-is-exactly-the-decoded-payload
 //@   ensures res != nil ==> !Is(res, io.EOF)                          // label: decoding-errors-are-not-eof
 
 //@ func (*protoJSONCodec).Marshal(c, message) (res, err)
 //@   tags C01
+//@   assigns nothing
 //@   ensures err == nil ==> seq(res) == jsonenc(mval(message))        // label: encodes-the-message
 
 // ---------------------------------------------------------------------------
@@ -1107,6 +1109,11 @@ package connect
 
 // The message of a connect error is the text of the error it wraps.
 //@ macro errMessage(e *Error) seq = if e.err != nil then errText(e.err) else ""
+//@ func (*Error).Error(e) res
+//@   tags C02
+//@   requires e != nil
+//@   assigns nothing
+//@   ensures res == (if errMessage(e) == "" then codeText(e.code) else codeText(e.code) ++ ": " ++ errMessage(e))   // label: code-text-then-message
 //@ func (*Error).Message(e) res
 //@   tags C02
 //@   requires e != nil
@@ -1693,3 +1700,98 @@ package connect
 //@   assert@call((*handlerConfig).newProtocolHandlers#1): (callres("newHandlerConfig", 1).Interceptor != nil) == called("Interceptor.WrapUnary", 1)   // label: unary-interceptors-applied-iff-configured   // tags: C16
 //@   assert@call((*handlerConfig).newProtocolHandlers#1): arg1 == 0
 //@   assert@call((*handlerConfig).newSpec#1): arg1 == 0 && arg0 == callres("newHandlerConfig", 1)
+
+// ---------------------------------------------------------------------------
+// protocol.go: the error-translating wrappers every protocol conn is returned
+// in (C02, C15: users only ever see coded errors, coded errors pass through
+// unchanged, context errors get their codes - also on the way to the wire)
+// ---------------------------------------------------------------------------
+
+//@ fieldis errorTranslatingHandlerConnCloser.toWire wrapIfContextError
+//@ fieldis errorTranslatingHandlerConnCloser.fromWire wrapIfUncoded
+//@ fieldis errorTranslatingClientConn.fromWire wrapIfUncoded
+//@ trusted func handlerConnCloser.Send(c, msg) err
+//@   assigns everything
+//@ trusted func handlerConnCloser.Receive(c, msg) err
+//@   assigns everything
+
+//@ macro translated(inner error, outer error) bool = (inner == nil <==> outer == nil) && (outer != nil ==> coded(outer)) && (coded(inner) ==> outer == inner) && (inner != nil && !coded(inner) && Is(inner, context.Canceled) ==> codeOf(outer) == 1) && (inner != nil && !coded(inner) && !Is(inner, context.Canceled) && Is(inner, context.DeadlineExceeded) ==> codeOf(outer) == 4)
+
+//@ func (*errorTranslatingHandlerConnCloser).Send(hc, msg) err
+//@   tags C02, C15
+//@   requires hc != nil && hc.handlerConnCloser != nil
+//@   assigns everything
+//@   ensures translated(callres("handlerConnCloser.Send", 1), err)   // label: users-see-the-inner-error-coded
+//@   assert@call(handlerConnCloser.Send#1): arg1 == msg
+//@ func (*errorTranslatingHandlerConnCloser).Receive(hc, msg) err
+//@   tags C02, C15
+//@   requires hc != nil && hc.handlerConnCloser != nil
+//@   assigns everything
+//@   ensures translated(callres("handlerConnCloser.Receive", 1), err)   // label: users-see-the-inner-error-coded
+//@   assert@call(handlerConnCloser.Receive#1): arg1 == msg
+//@ func (*errorTranslatingHandlerConnCloser).Close(hc, err) res
+//@   tags C02, C15
+//@   requires hc != nil && hc.handlerConnCloser != nil
+//@   assigns everything
+//@   assert@call(handlerConnCloser.Close#1): (err == nil ==> arg1 == nil) && (coded(err) ==> arg1 == err) && (err != nil && !coded(err) && Is(err, context.Canceled) ==> coded(arg1) && codeOf(arg1) == 1) && (err != nil && !coded(err) && !Is(err, context.Canceled) && Is(err, context.DeadlineExceeded) ==> coded(arg1) && codeOf(arg1) == 4) && (err != nil && !coded(err) && !Is(err, context.Canceled) && !Is(err, context.DeadlineExceeded) ==> arg1 == err)   // label: context-errors-are-coded-before-they-go-to-the-wire   // tags: C15, C02
+//@   ensures translated(callres("handlerConnCloser.Close", 1), res)   // label: users-see-the-inner-error-coded
+
+//@ func (*errorTranslatingClientConn).Send(cc, msg) err
+//@   tags C02, C15
+//@   requires cc != nil && cc.StreamingClientConn != nil
+//@   assigns everything
+//@   ensures translated(callres("StreamingClientConn.Send", 1), err)   // label: users-see-the-inner-error-coded
+//@   ensures callres("StreamingClientConn.Send", 1) != nil ==> (Is(err, io.EOF) <==> Is(callres("StreamingClientConn.Send", 1), io.EOF))   // label: the-write-side-eof-stays-recognisable   // tags: C02, C04
+//@ func (*errorTranslatingClientConn).Receive(cc, msg) err
+//@   tags C02, C15, C04
+//@   requires cc != nil && cc.StreamingClientConn != nil
+//@   assigns everything
+//@   ensures translated(callres("StreamingClientConn.Receive", 1), err)   // label: users-see-the-inner-error-coded
+//@   ensures callres("StreamingClientConn.Receive", 1) != nil ==> (Is(err, io.EOF) <==> Is(callres("StreamingClientConn.Receive", 1), io.EOF))   // label: end-of-stream-stays-recognisable   // tags: C04
+//@ func (*errorTranslatingClientConn).CloseRequest(cc) err
+//@   tags C02, C15
+//@   requires cc != nil && cc.StreamingClientConn != nil
+//@   assigns everything
+//@   ensures translated(callres("StreamingClientConn.CloseRequest", 1), err)
+//@ func (*errorTranslatingClientConn).CloseResponse(cc) err
+//@   tags C02, C15
+//@   requires cc != nil && cc.StreamingClientConn != nil
+//@   assigns everything
+//@   ensures translated(callres("StreamingClientConn.CloseResponse", 1), err)
+//@ constfield errorTranslatingHandlerConnCloser.toWire, errorTranslatingHandlerConnCloser.fromWire, errorTranslatingHandlerConnCloser.handlerConnCloser, errorTranslatingClientConn.fromWire, errorTranslatingClientConn.StreamingClientConn
+//@ typeinv *errorTranslatingHandlerConnCloser v by wrapHandlerConnWithCodedErrors: v.toWire != nil && v.fromWire != nil
+//@ typeinv *errorTranslatingClientConn v by wrapClientConnWithCodedErrors: v.fromWire != nil
+//@ func wrapClientConnWithCodedErrors(conn) res
+//@   tags C02, C15
+//@   ensures fresh(res) && typeis(res, "*errorTranslatingClientConn") && cast(res, "*errorTranslatingClientConn").StreamingClientConn == conn
+
+// ---------------------------------------------------------------------------
+// C02: the JSON wire form of a Connect error (protocol_connect.go)
+// ---------------------------------------------------------------------------
+
+// MarshalJSON hands the JSON codec a message whose code is the text of the
+// error's code, whose message is the wrapped error's text, and which has as
+// many details; UnmarshalJSON reads them back: the text of every 32-bit code
+// parses to that code (Code.UnmarshalText's round-trip clause), the message is
+// wrapped in a new error with exactly that text, details keep their order.
+//@ func (*connectWireError).MarshalJSON(e) (res, err)
+//@   tags C02, C05
+//@   requires e != nil && dtypeIs(e, "*Error")
+//@   assigns nothing
+//@   assert@call((*protoJSONCodec).Marshal#1): let w := cast(arg1, "*errorv1.Error") in w.Code == codeText(cast(e, "*Error").code) && w.Message == errMessage(cast(e, "*Error")) && len(w.Details) == len(cast(e, "*Error").details)   // label: wire-error-carries-code-text-message-and-all-details
+//@   ensures err == nil ==> seq(res) == seq(callres("(*protoJSONCodec).Marshal", 1, 0))
+
+//@ func (*connectWireError).UnmarshalJSON(e, data) err
+//@   tags C02, C06
+//@   requires e != nil
+//@   nosafety truncation
+//@   assigns e.code, e.err, e.details
+//@   ensures err == nil && wire.Code == "" ==> e.code == old(e.code) && e.err == old(e.err)   // label: an-empty-code-leaves-the-error-untouched
+//@   ensures err == nil && wire.Code != "" ==> (forall k int :: {codeText(k)} 0 <= k && k <= 4294967295 && wire.Code == codeText(k) ==> e.code == k)   // label: the-code's-text-parses-back-to-the-code
+//@   ensures err == nil && wire.Code != "" && wire.Message != "" ==> e.err != nil && errText(e.err) == wire.Message   // label: message-is-kept-byte-for-byte
+//@   ensures err == nil && wire.Code != "" && wire.Message == "" ==> e.err == old(e.err)
+//@   ensures err == nil && wire.Code != "" && len(wire.Details) > 0 ==> len(e.details) == len(wire.Details) && (forall i int :: {e.details[i]} 0 <= i && i < len(wire.Details) ==> e.details[i] == wire.Details[i])   // label: details-keep-their-order
+//@   loop 1:
+//@     invariant len(e.details) == len(wire.Details) && 0 - 1 <= rangeindex && sl_arr(e.details) != sl_arr(wire.Details)
+//@     invariant forall i int :: {e.details[i]} {wire.Details[i]} 0 <= i && i <= rangeindex ==> e.details[i] == wire.Details[i]
+//@     assigns elems(e.details)
